@@ -18,6 +18,31 @@ def test_lincont():
     assert list(NDSet([10, 20, 30])) == [10, 20, 30]
 
 
+def repo_tests_gate():
+    """The repository's own tests must pass on the SQL model, without and with the
+    de-hash import hook (semantic-preservation gate for both)."""
+    import os
+    import subprocess
+    import wn
+    repo = os.path.dirname(os.path.dirname(wn.__file__))
+    if not os.path.isdir(os.path.join(repo, 'tests')):
+        print('repo tests gate: tests/ not found; skipped', file=sys.stderr)
+        return
+    verif = os.path.dirname(os.path.dirname(os.path.abspath(__file__)))
+    for hook in ('0', '1'):
+        env = dict(os.environ, VF_HOOK=hook,
+                   PYTHONPATH=verif + os.pathsep + os.environ.get('PYTHONPATH', ''))
+        p = subprocess.run(
+            [sys.executable, '-m', 'pytest', 'tests', '-q', '-p', 'no:cacheprovider', '-p',
+             'vf.pytest_model', '--deselect', 'tests/db_test.py::test_db_multithreading',
+             '--deselect', 'tests/db_test.py::test_schema_compatibility'],
+            cwd=repo, env=env, capture_output=True, text=True)
+        tail = p.stdout.strip().splitlines()[-1] if p.stdout.strip() else ''
+        if p.returncode != 0:
+            raise SystemExit(f'repo tests gate failed (hook={hook}):\n' + p.stdout[-3000:])
+        print(f'repo tests on the SQL model (de-hash hook={hook}): {tail}')
+
+
 def main():
     test_lincont()
     try:
@@ -26,6 +51,7 @@ def main():
         sqlmodel_selftest = None
     if sqlmodel_selftest:
         sqlmodel_selftest.main()
+        repo_tests_gate()
     print('selftest ok')
 
 
